@@ -10,6 +10,8 @@ def fault_kind_name(f, rec=None):
     k = f["kind"]
     if k == "kill_fs":
         return "kill_torn_write" if f.get("prefix") is not None else "kill_between_fs_ops"
+    if k == "kill_fs_after_signal":
+        return "kill_during_signal_handler_checkpoint"
     if k == "kill_like":
         return "kill_at_likelihood_call"
     if k == "signal":
